@@ -387,6 +387,57 @@ def _msg_worker(args):
         return args, [f'harness exception {exc!r} {traceback.format_exc()[-500:]}']
 
 
+# ---------------------------------------------------------------------------------------------- header values (unit level)
+
+ADDR_TOKENS = [b'a', b'@', b'[', b']', b'<', b'>', b'"', b'(', b',', b';', b':', b'.', b' ', b'\r\n ']
+OTHER_TOKENS = ADDR_TOKENS + [b')', b'\\', b'=?', b'?=', b'=', b'/', b'*', b"'", b'%', b'\xe9']
+ADDR_FIELDS = (b'From', b'To', b'Sender', b'Reply-To')
+OTHER_FIELDS = (b'Date', b'Content-Type', b'Content-Disposition', b'Message-Id', b'Subject', b'Content-Transfer-Encoding',
+                b'Content-Language', b'References')
+
+
+def render_everything(msg: bytes):
+    """what FETCH ENVELOPE / BODYSTRUCTURE / BODY and the header-based SEARCH keys compute for a stored message, called
+    directly on the real classes; returns the escaped exception or None"""
+    from pymap.mime import MessageContent
+    from pymap.message import BaseLoadedMessage
+    try:
+        content = MessageContent.parse(msg)
+        bytes(BaseLoadedMessage._get_envelope_structure(content))
+        bs = BaseLoadedMessage._get_body_structure(content)
+        bytes(bs)
+        bytes(bs.extended)
+        parsed = content.header.parsed
+        for prop in ('content_type', 'date', 'subject', 'from_', 'sender', 'reply_to', 'to', 'cc', 'bcc', 'in_reply_to', 'references',
+                     'message_id', 'content_disposition', 'content_language', 'content_location', 'content_id',
+                     'content_description', 'content_transfer_encoding'):
+            v = getattr(parsed, prop)
+            str(v)
+        for name in list(parsed):
+            [str(h) for h in parsed[name]]
+    except Exception as exc:    # noqa
+        return exc
+    return None
+
+
+def _header_worker(args):
+    field, values = args
+    out = []
+    for v in values:
+        msg = b'X-Before: 1\r\n' + field + b': ' + v + b'\r\nX-After: 1\r\n\r\nbody\r\n'
+        exc = render_everything(msg)
+        if exc is not None:
+            out.append((field, v, f'{_site(exc)}: {exc!r:.120}'))
+    return len(values), out
+
+
+def header_values(tokens, maxlen):
+    import itertools
+    for n in range(0, maxlen + 1):
+        for t in itertools.product(tokens, repeat=n):
+            yield b''.join(t)
+
+
 # ---------------------------------------------------------------------------------------------- ManageSieve
 
 SIEVE_SEEDS = [b'CAPABILITY', b'NOOP', b'NOOP "tag"', b'LOGOUT', b'STARTTLS', b'AUTHENTICATE "PLAIN"', b'AUTHENTICATE "PLAIN" "AHRlc3R1c2VyAHRlc3RwYXNz"',
@@ -555,6 +606,39 @@ def bounded_total(label):
         _with_watchdog(None, messages(tier), _msg_worker, 120, on_msg,
                        lambda it: res.fail(f'{label}/other_connections_keep_being_served', dict(message=it[0], bytes=repr(it[1][:200])),
                                            ['watchdog: FETCH/SEARCH of this message did not finish']))
+        # messages expunged by another session, fetched by a session that has not been told yet (dict and maildir)
+        from .e2e_wellformed import expunged_scenario
+        for backend in ('dict', '++', 'fs'):
+            try:
+                errs, n = run(expunged_scenario(backend))
+            except Exception as exc:    # noqa
+                errs, n = [f'harness exception {exc!r}'], 0
+            res.evaluations += 1
+            for e in errs:
+                if 'ended the connection' in e or 'harness exception' in e:
+                    res.fail(f'{label}/connection_task_never_dies_of_an_exception', dict(scenario='fetch of expunged messages', backend=backend), [e])
+        # header values rendered directly through the real ENVELOPE / BODYSTRUCTURE / parsed-header code
+        hitems = []
+        for f in ADDR_FIELDS:
+            vals = list(header_values(ADDR_TOKENS, 4 if tier == 'quick' else 5))
+            for i in range(0, len(vals), 4000):
+                hitems.append((f, vals[i:i + 4000]))
+        for f in OTHER_FIELDS:
+            vals = list(header_values(OTHER_TOKENS, 3 if tier == 'quick' else 4))
+            for i in range(0, len(vals), 4000):
+                hitems.append((f, vals[i:i + 4000]))
+
+        def on_hdr(r):
+            n, bad = r
+            res.evaluations += n
+            for field, v, what in bad:
+                res.fail(f'{label}/connection_task_never_dies_of_an_exception',
+                         dict(header=field.decode(), value=repr(v), how='rendered directly (ENVELOPE/BODYSTRUCTURE/parsed headers)'),
+                         [f'a stored message with the header {field.decode()}: {v!r} makes FETCH ENVELOPE/BODYSTRUCTURE or a header SEARCH '
+                          f'key raise {what} (escapes while the response is written / as BYE [SERVERBUG])'])
+        _with_watchdog(None, hitems, _header_worker, 600, on_hdr,
+                       lambda it: res.fail(f'{label}/other_connections_keep_being_served', dict(header=it[0].decode()),
+                                           ['watchdog: rendering the header values did not finish']))
         slines = []
         for s in SIEVE_SEEDS:
             slines += mutations(s, rnd, 'quick')
